@@ -412,7 +412,9 @@ class Interp(object):
     def _queue(self, st, k1, k0):
         inner = self._inner(st, k1)
         if k0 not in inner["entries"]:
-            inner["entries"][k0] = new_q(present=None, empty=None)
+            # an inner dict that this very call created (and no entry of which was linked since) has no keys at all
+            fresh = isinstance(inner.get("ident"), tuple) and inner["ident"][:1] == ("new",) and inner.get("rest") is False
+            inner["entries"][k0] = new_q(present=False if fresh else None, empty=None)
         return inner["entries"][k0]
 
     def _present_inner(self, st, k1):
@@ -988,8 +990,24 @@ class Interp(object):
                 for s2, v in self.subscript(recv, args[0], st):
                     if v[0] != "RAISE":
                         res.append((s2, v))
+                        continue
+                    # the key is absent: the default is linked under it (exactly what `d[k] = default` does) and returned
+                    dflt, k = args[1], args[0]
+                    if k == "D" and False:
+                        pass
+                    if recv[0] == "D":
+                        if dflt[0] != "NEWI" or dflt[1]:
+                            raise AbsError("setdefault on the outer dict with %s" % (dflt[0],))
+                        s2.outer[args[0]] = new_inner(ident=("new", dflt[2]), present=True, rest=False)
+                        s2.effects.append(("set-inner", args[0], ()))
+                        res.append((s2, ("I", args[0])))
                     else:
-                        raise AbsError("setdefault creating an entry")
+                        if dflt[0] != "NEWQ":
+                            raise AbsError("setdefault on an inner dict with %s" % (dflt[0],))
+                        inner = self._inner(s2, recv[1])
+                        inner["entries"][args[0]] = new_q(ident=("new", dflt[1]), present=True, empty=True)
+                        s2.effects.append(("set-queue", recv[1], args[0]))
+                        res.append((s2, ("Q", recv[1], args[0])))
                 return res
             if name == "pop" and len(args) in (1, 2):
                 raise AbsError("dict.pop")
